@@ -2,6 +2,7 @@
   C09 — catalog creation is fail-stop: exact catalog or an exception, never a hang.
 -/
 import YawVerif.Model.Creation
+import YawVerif.Generated.Validation
 import Mathlib.Tactic.Linarith
 
 namespace Yaw.C09
@@ -299,5 +300,42 @@ theorem glue_pinned :
 
 /-! non-vacuity: a run with a reader fault in the second of three chunks -/
 example : (next ⟨some 2, false, false⟩ 2 (init 3)).length = 2 := by decide
+
+/-! ### What a chunk is checked for (regenerated from `check_patch_ids` / `DataChunk.create` / `common_len_assert`) -/
+
+/-- the id test of the code rejects a column exactly when some id lies outside 0..32767 (`mn`, `mx`: smallest and
+largest id of the column, so "all ids in range" is `0 ≤ mn ∧ mx ≤ 32767`) -/
+theorem id_range_spec (mn mx : Int) : Gen.idRejected mn mx = true ↔ ¬ (0 ≤ mn ∧ mx ≤ 32767) := by
+  unfold Gen.idRejected
+  simp only [Bool.or_eq_true, decide_eq_true_eq]
+  constructor
+  · rintro (h | h) ⟨h0, h1⟩
+    · have : (0 : Rat) ≤ (mn : Rat) := by exact_mod_cast h0
+      exact absurd h (not_lt.mpr this)
+    · have : (mx : Rat) ≤ (32767 : Rat) := by exact_mod_cast h1
+      exact absurd h (not_lt.mpr this)
+  · intro h
+    by_cases h0 : 0 ≤ mn
+    · right
+      have h1 : ¬ mx ≤ 32767 := fun h1 => h ⟨h0, h1⟩
+      have : (32767 : Int) < mx := by omega
+      exact_mod_cast this
+    · left
+      have : mn < 0 := by omega
+      exact_mod_cast this
+
+/-- the bound IS the capacity of the stored id type, so an accepted id is stored unchanged -/
+theorem id_bound_is_dtype_max : Gen.patchIdMax = 32767 := by decide
+
+/-- why the ORDER matters: reduced to 16 bit first, the id 65537 becomes the valid id 1 — a test after the cast accepts
+it (the defect pattern of a check that runs on the already filled record array) -/
+def wrap16 (i : Int) : Int := (i + 32768) % 65536 - 32768
+theorem check_after_cast_accepts_garbage :
+    Gen.idRejected 65537 65537 = true ∧ Gen.idRejected (wrap16 65537) (wrap16 65537) = false := by decide
+
+/-- the code checks the ids of the raw column before anything is cast, compares the lengths of ALL given columns, and
+rejects non-finite values unless told otherwise -/
+theorem validation_flags :
+    Gen.idsCheckedBeforeCast = true ∧ Gen.lengthsCompared = true ∧ Gen.finiteCheckedByDefault = true := by decide
 
 end Yaw.C09
